@@ -367,6 +367,21 @@ func skipValue(decoder *json.Decoder) error {
 }
 
 func doGetProfileJSONTag(structType reflect.Type, structVal reflect.Value) (string, error) {
+	// an embedded interface may hold a pointer to a struct (the populate
+	// helpers require that); follow it as the other walks do
+	if structType.Kind() == reflect.Pointer {
+		if structVal.IsNil() {
+			return "", errNoProfile
+		}
+
+		structType = structType.Elem()
+		structVal = structVal.Elem()
+	}
+
+	if structType.Kind() != reflect.Struct || !structVal.IsValid() {
+		return "", errNoProfile
+	}
+
 	var foundByCBORKey *reflect.StructField
 	var foundByFieldName *reflect.StructField
 	var embeds []embedded
